@@ -307,6 +307,9 @@ pub fn build(name: &str, rng: &mut Rng) -> Built {
     Built { name: name.to_string(), params, rig, alphabets }
 }
 
+/// DSP blocks with a Lean model (C11)
+pub const DSP_NAMES: &[&str] = &["fir", "fir_c", "hilbert", "iir1", "fastfm", "fftx"];
+
 pub const HAND_NAMES: &[&str] = &[
     "skip", "delay", "resampler", "rtlsdr", "fir", "fir_c", "fftfilter", "fftfilter_f", "hilbert", "fftstream",
     "auenc", "zerocross", "symsync", "hdlc", "il2p", "quaddemod", "fastfm", "iir1", "s2pdu", "v2s",
@@ -372,7 +375,8 @@ pub fn build_hand(name: &str, rng: &mut Rng) -> Built {
             let taps: Vec<Complex> = (0..ntaps)
                 .map(|_| Complex::new((rng.range(0, 4) as i32 - 2) as f32, (rng.range(0, 4) as i32 - 2) as f32))
                 .collect();
-            params = vec![deci as u64, ntaps as u64];
+            params = vec![deci as u64];
+            params.extend(taps.iter().map(|t| t.re.to_bits() as u64 | ((t.im.to_bits() as u64) << 32)));
             alphabets = vec![complex_alpha(rng)];
             rig1::<Complex, Complex>(rng, |r| bx!(FirFilterBuilder::new(&taps).deci(deci).build(r)))
         }
@@ -385,6 +389,16 @@ pub fn build_hand(name: &str, rng: &mut Rng) -> Built {
             alphabets = vec![complex_alpha(rng)];
             rig1::<Complex, Complex>(rng, |r| bx!(FftFilter::new(r, &taps)))
         }
+        "fftx" => {
+            // FftFilter around an exact engine (cyclic convolution in integers)
+            let ntaps = rng.range(1, 40);
+            let taps: Vec<Complex> = (0..ntaps)
+                .map(|_| Complex::new((rng.range(0, 4) as i32 - 2) as f32, (rng.range(0, 4) as i32 - 2) as f32))
+                .collect();
+            params = taps.iter().map(|t| t.re.to_bits() as u64 | ((t.im.to_bits() as u64) << 32)).collect();
+            alphabets = vec![complex_alpha(rng)];
+            rig1::<Complex, Complex>(rng, |r| bx!(FftFilter::new_engine(r, crate::dsp::ExactEngine::new(&taps))))
+        }
         "fftfilter_f" => {
             let ntaps = rng.range(1, 30);
             let taps: Vec<f32> = (0..ntaps).map(|_| (rng.range(0, 6) as i32 - 3) as f32).collect();
@@ -394,8 +408,10 @@ pub fn build_hand(name: &str, rng: &mut Rng) -> Built {
         }
         "hilbert" => {
             let ntaps = 2 * rng.range(1, 20) + 1;
-            params = vec![ntaps as u64];
-            alphabets = vec![int_f32_alpha()];
+            // the model is given the taps the library computes
+            let taps = rustradio::fir::hilbert(&rustradio::window::WindowType::Hamming.make_window(ntaps));
+            params = taps.iter().map(|t| t.to_bits() as u64).collect();
+            alphabets = vec![if rng.chance(1, 2) { int_f32_alpha() } else { wave_alpha() }];
             rig1::<f32, Complex>(rng, |r| bx!(Hilbert::new(r, ntaps, &rustradio::window::WindowType::Hamming)))
         }
         "fftstream" => {
@@ -458,8 +474,10 @@ pub fn build_hand(name: &str, rng: &mut Rng) -> Built {
             rig1::<Complex, f32>(rng, |r| bx!(FastFM::new(r)))
         }
         "iir1" => {
+            let alpha = *rng.pick(&[0.25f32, 0.0, 1.0, 0.1, 0.9, 0.33333334]);
+            params = vec![alpha.to_bits() as u64];
             alphabets = vec![wave_alpha()];
-            rig1::<f32, f32>(rng, |r| bx!(SinglePoleIirFilter::new(r, 0.25).unwrap()))
+            rig1::<f32, f32>(rng, |r| bx!(SinglePoleIirFilter::new(r, alpha).unwrap()))
         }
         "s2pdu" => {
             let max = *rng.pick(&[5usize, 50, 5000]);
@@ -517,7 +535,13 @@ pub fn build_hand(name: &str, rng: &mut Rng) -> Built {
         }
         _ => panic!("unknown block {name}"),
     };
-    Built { name: name.to_string(), params, rig, alphabets }
+    // Hilbert calls filter_float: the model must use the kernel this build compiles
+    let name = if name == "hilbert" && crate::dsp::kernel_name() != "scalar" {
+        format!("hilbert_{}", crate::dsp::kernel_name())
+    } else {
+        name.to_string()
+    };
+    Built { name, params, rig, alphabets }
 }
 
 fn gen_inspecs(built: &Built, rng: &mut Rng, heavy_tags: bool) -> Vec<InSpec> {
@@ -685,6 +709,7 @@ pub fn run(args: &[String]) -> Vec<String> {
         "sync" => SYNC_NAMES.to_vec(),
         "arity" => ARITY_NAMES.to_vec(),
         "hand" => HAND_NAMES.to_vec(),
+        "dsp" => DSP_NAMES.to_vec(),
         "every" => SYNC_NAMES.iter().chain(ARITY_NAMES.iter()).chain(HAND_NAMES.iter()).copied().collect(),
         _ => SYNC_NAMES.iter().chain(ARITY_NAMES.iter()).copied().collect(),
     };
